@@ -89,6 +89,8 @@ mod roaring;
 mod spaces;
 mod stats;
 pub mod upgrade;
+#[cfg(feature = "verif-hooks")]
+pub mod verif;
 mod version;
 mod writer;
 
